@@ -2,10 +2,13 @@
    PARTIAL at proof level: proved here are the password exception (the printed text does not depend on
    the password at all), and — by evaluating the model's own printer and full text-level parser inside
    the kernel — that the full statement is FALSE of the code as it is for three narrow classes (known
-   findings).  The round trip itself is evaluated on the implementation for every statement kind, and
-   the model printer (every String() of ast.go) is compared with the implementation (harness/c02.go). *)
+   findings); and, leaf by leaf, the round trips of the value printers: regex literals here (every regex the
+   scanner can return), strings and identifiers in C06, durations in C08.  The round trip of whole statements
+   is evaluated on the implementation for every statement kind, and the model printer (every String() of
+   ast.go) is compared with the implementation (harness/c02.go). *)
 From InfluxQL Require Import Base.Prelude Base.Oracles Lex.Token Lex.Reader Lex.Scanner Ast.Ast Ast.Printer Ast.PrinterStmts
   Parse.Instr Parse.ParseExpr Parse.ParseStmts.
+From InfluxQL Require Import Lex.StreamLex Proofs.RingAt Proofs.RingRefine Proofs.RegexRoundTrip.
 
 Theorem C02_password_not_printed_create_user : forall orc n pw1 pw2 a,
   print_stmt orc (CreateUser n pw1 a) = print_stmt orc (CreateUser n pw2 a).
@@ -66,3 +69,31 @@ Example C02_example_roundtrip :
   | Ok s => match reparse s with Ok s' => true | _ => false end
   | _ => false end = true.
 Proof. vm_compute. reflexivity. Qed.
+
+Local Close Scope string_scope.
+Local Open Scope list_scope.
+(* regex literals, every regex the scanner can return (so: of every accepted statement): RegexLiteral.String writes
+   it between slashes with every slash escaped, and ScanRegex reads that text back to the same regex source and stops
+   right behind the closing slash - on the plain-text lexer, and through the refinement on the exact lexer *)
+Theorem C02_regex_print_scan : forall t b t' rest, s_scan_regex t = ((REGEX, b), t') ->
+  s_scan_regex (print_regex b ++ rest) = ((REGEX, b), rest).
+Proof. exact regex_print_scan. Qed.
+Print Assumptions C02_regex_print_scan.
+
+Theorem C02_regex_print_scan_exact_lexer : forall T1 T2 r1 r2 t rest,
+  at_ T1 r1 t -> r_n r1 <= 2 -> fst (fst (fst (scan_regex r1))) = REGEX ->
+  at_ T2 r2 (print_regex (snd (fst (scan_regex r1))) ++ rest) -> r_n r2 <= 2 ->
+  tl_of (fst (scan_regex r2)) = (REGEX, snd (fst (scan_regex r1))) /\ at_ T2 (snd (scan_regex r2)) rest.
+Proof. exact ring_regex_print_scan. Qed.
+Print Assumptions C02_regex_print_scan_exact_lexer.
+
+(* the class of regex sources that round-trip, and the one that cannot: a source ending in a backslash (the printed
+   closing slash would be read as escaped); the scanner never returns such a source *)
+Theorem C02_regex_class : forall s rest, rx_ok s -> s_scan_regex (print_regex s ++ rest) = ((REGEX, s), rest).
+Proof. exact s_scan_regex_printed. Qed.
+Print Assumptions C02_regex_class.
+
+Example C02_regex_example :
+  s_scan_regex (print_regex (ts "a/b\c") ++ ts " AND") = ((REGEX, ts "a/b\c"), ts " AND") /\
+  print_regex (ts "a/b\c") = ts "/a\/b\c/".
+Proof. split; reflexivity. Qed.
